@@ -118,7 +118,7 @@ def boundaries(p):
     for i in range(12, len(p.lines) + 1):
         prev = p.lines[i - 1]
         nxt = p.lines[i] if i < len(p.lines) else None
-        if nxt is not None and nxt.kind == "cont":
+        if nxt is not None and nxt.kind in ("cont", "pcont"):
             continue   # inside a statement
         if nxt is not None and nxt.kind == "comment" and nxt.sid == prev.sid:
             continue
